@@ -155,7 +155,12 @@ def run(prop, tier, seed, jobs, oracles, budget_s, diff_scripts, bounds, extra_a
                 rep.inconclusive.append('MODEL-MISMATCH: script %s %s: %s' % (dj['skel'], dj['concrete'], mism))
             else:
                 rep.replays_agreed += 1
-    if rep.inconclusive:
+                v = judge(script, obs, kinds)
+                if v:
+                    script['property'] = prop
+                    path = runner.write_replay(prop, 'diff_%s' % dj['skel'].replace(',', '').replace(':', ''), script)
+                    rep.violation(path, 'fixed script %s sizes %s: %s' % (dj['skel'], dj['concrete']['sizes'], v[0][2]))
+    if rep.inconclusive or rep.violations:
         return rep.finish()
 
     # ---- 2. symbolic exploration
